@@ -448,6 +448,9 @@ func ipamRun(c *Ctx, focus string) {
 					rem = append(rem, fmt.Sprintf("%d:%s:-:-:%s", x.id, Pick(r, []string{"v", "v", "v", "d"}), b01(x.primary)))
 				}
 			}
+			if r.Chance(15) {
+				cur = nil // the record has no address of this family on the interface (the map reads back nil)
+			}
 			for k := r.Intn(3); k > 0; k-- { // addresses only the cloud knows
 				rem = append(rem, fmt.Sprintf("%d:%s:-:-:0", 9000+k, Pick(r, []string{"v", "d"})))
 			}
@@ -560,10 +563,10 @@ func ipamExecOne(c *Ctx, focus string, op string) Line {
 			return Line{op, "bad-op"}
 		}
 		parse := func(s string) map[string]*networkv1beta1.IP {
-			m := map[string]*networkv1beta1.IP{}
 			if s == "-" {
-				return m
+				return nil // a family the record has no address of reads back as a nil map
 			}
+			m := map[string]*networkv1beta1.IP{}
 			for _, xt := range strings.Split(s, ",") {
 				g := strings.Split(xt, ":")
 				id, _ := strconv.Atoi(g[0])
@@ -580,7 +583,7 @@ func ipamExecOne(c *Ctx, focus string, op string) Line {
 		for k, v := range current {
 			before[k] = *v
 		}
-		ipamnode.VerifMergeIPMap(remote, current)
+		current = ipamnode.VerifMergeIPMap(remote, current)
 		type kv struct {
 			id int
 			s  string
